@@ -509,6 +509,10 @@ func runC03(c *core.Ctx) {
 	case i%20 == 7:
 		c.Count("elemtype:pointer-twins", 1)
 		runListHistory(c, PTwinDom(), c.R.Range(20, 120), c.R.Range(4, 24))
+	case i%20 == 8:
+		// ints from the whole range of the type as elements (negatives, extremes)
+		c.Count("elemtype:wide-int", 1)
+		runListHistory(c, WideIntDom(c.R, c.R.Range(3, 10)), c.R.Range(20, 120), c.R.Range(4, 24))
 	case i%200 == 9:
 		runListBulk(c, i/200)
 	case i%20 == 2 && c.Tier == "thorough":
@@ -536,6 +540,7 @@ func init() {
 			f := &floorCheck{m: m}
 			f.atLeast("obs:bulk-into-empty-list", 150)
 			f.atLeast("elemtype:pointer-twins", 1000)
+			f.atLeast("elemtype:wide-int", 1000)
 			for _, l := range []string{"ArrayList", "SinglyLinkedList", "DoublyLinkedList"} {
 				for _, ic := range []string{"negative", "first", "front-half", "back-half", "last", "size", "beyond"} {
 					for _, cc := range []string{"0", "1", ">1"} {
